@@ -2,12 +2,68 @@
     The classification of occurrences (read / write / extend, per-variable reference lists) is part
     of the scope model, tied to the real ScopeManager reference by reference; the zone statement is
     evaluated per case (pending proof). *)
-From Selene Require Import Scope.Interp Scope.Balanced Scope.Spec Scope.Zones.
+From Selene Require Import Scope.Interp Scope.Balanced Scope.Spec Scope.Zones Scope.RefsInv Lints.Unused Lints.UnusedSpec.
 
 Theorem C02_walk_balanced : forall chunk, depth_after 1%nat (events_of_chunk chunk) = Some 1%nat.
 Proof. exact chunk_balanced. Qed.
 Print Assumptions C02_walk_balanced.
 
+(** what every run keeps true of the two arenas: a reference reads or writes; one that reads comes from a
+    read event of its name; the references listed under a variable exist and carry its name *)
+Theorem C02_arenas_consistent : forall chunk s,
+  scope_manager chunk = Some s -> arenas_ok (events_of_chunk chunk) s.
+Proof. exact scope_manager_ok. Qed.
+Print Assumptions C02_arenas_consistent.
+
+(** the lint (Lints/Unused.v) reports a variable iff it is not exempt and none of its references is
+    analysed as a read *)
+Theorem C02_reported_iff : forall cfg l s chunk v,
+  var_reported cfg l s chunk v = true <->
+  var_skipped cfg l v = false /\ (v_self v && u_allow_self cfg = false) /\
+  forall a, In a (var_analysis l s chunk v) -> is_read a = false.
+Proof. exact reported_iff. Qed.
+Print Assumptions C02_reported_iff.
+
+(** never flagged when read: any reading reference of a variable that was not initialised with a table
+    constructor; for those that were, any reading reference that is not a bare argument of a call
+    statement, or is one of a call to a script-defined function *)
+Theorem C02_read_is_a_use : forall cfg l s chunk v i r,
+  is_static_var chunk v = false -> In (i, r) (refs_of (refs s) v) -> r_read r = true ->
+  var_reported cfg l s chunk v = false.
+Proof. exact read_is_a_use. Qed.
+Print Assumptions C02_read_is_a_use.
+
+Theorem C02_plain_read_is_a_use : forall cfg l s chunk v i r,
+  In (i, r) (refs_of (refs s) v) -> r_read r = true -> r_write r = None ->
+  attr_of (refs s) (call_attrs chunk) i = None ->
+  var_reported cfg l s chunk v = false.
+Proof. exact plain_read_is_a_use. Qed.
+Print Assumptions C02_plain_read_is_a_use.
+
+Theorem C02_script_call_argument_is_a_use : forall cfg l s chunk v i r ca j init vid,
+  In (i, r) (refs_of (refs s) v) -> r_read r = true -> r_write r = None ->
+  attr_of (refs s) (call_attrs chunk) i = Some ca ->
+  ref_at (refs s) (ca_start ca) = Some j -> nth_error (refs s) j = Some init -> r_resolved init = Some vid ->
+  var_reported cfg l s chunk v = false.
+Proof. exact script_call_argument_is_a_use. Qed.
+Print Assumptions C02_script_call_argument_is_a_use.
+
+(** always flagged when only written, in particular when its name is never read anywhere in the file *)
+Theorem C02_only_written_is_reported : forall cfg l s chunk v,
+  var_skipped cfg l v = false -> (v_self v && u_allow_self cfg = false) ->
+  (forall i r, In (i, r) (refs_of (refs s) v) -> r_read r = false /\ r_write r <> None) ->
+  var_reported cfg l s chunk v = true.
+Proof. exact only_written_is_reported. Qed.
+Print Assumptions C02_only_written_is_reported.
+
+Theorem C02_never_read_is_reported : forall cfg l chunk s v,
+  scope_manager chunk = Some s -> In v (Interp.vars s) ->
+  (forall t, In (EvRead t) (events_of_chunk chunk) -> t_name t <> t_name (v_tok v)) ->
+  var_skipped cfg l v = false -> (v_self v && u_allow_self cfg = false) ->
+  var_reported cfg l s chunk v = true.
+Proof. exact never_read_is_reported. Qed.
+Print Assumptions C02_never_read_is_reported.
+
 Definition C02_agreement_statement : Prop :=
-  forall chunk roots flagged captured, 
-    fst (c02_zone (occs chunk) (decls chunk) roots flagged captured) = 0%N.
+  forall chunk roots flagged captured ignored allow_self,
+    fst (c02_zone (occs chunk) (decls chunk) roots flagged captured ignored allow_self) = 0%N.
